@@ -9,7 +9,7 @@
         variable $l,
       {let $x: e /}, {let $x}…{/let},
       {call} without a data attribute, with data="all", with data="$m" (a variable) or data="[k₁: e₁, …]" (a
-        map literal), and with value params,
+        map literal), with value params and content params ({param k}…{/param}),
       header params
       — nested arbitrarily, templates calling templates to any depth (`render_refines_lexical_partial`),
       with expressions of the scalar operator fragment of Props/C01.lean,
@@ -32,8 +32,7 @@
 
   Still outside (exactly): expressions beyond Props/C01's scalar operator fragment (accesses, collection
   literals other than a loop's list literal and a call's map literal, functions other than a loop's range —
-  hence also `index` / `isFirst` / `isLast`), collections nested in collections, print directives, content
-  params ({param k}…{/param}), {msg}.  Those are covered by the scoping theorems of Props/C02.lean and by
+  hence also `index` / `isFirst` / `isLast`), collections nested in collections, print directives, {msg}.  Those are covered by the scoping theorems of Props/C02.lean and by
   the Spec.render oracle of the C02exec correspondence.
 -/
 import SoyVerif.Lemmas.ExecRefine
@@ -48,12 +47,6 @@ open SoyVerif.Props.C02 (ScopeOk)
 def optFrag (coll : Bytes → Bool) : Option Expr → Bool
   | none => true
   | some e => frag coll e
-
-/-- the params of a call: values of the expression fragment (no content blocks) -/
-def paramsFrag (coll : Bytes → Bool) : ParamList → Bool
-  | .nil => true
-  | .value _ _ e r => frag coll e && paramsFrag coll r
-  | .content _ _ _ _ => false
 
 /-- the items of a list literal -/
 def fragList (coll : Bytes → Bool) : ExprList → Bool
@@ -107,6 +100,11 @@ def condsFrag (coll : Bytes → Bool) : CondList → Bool
 def casesFrag (coll : Bytes → Bool) : CaseList → Bool
   | .nil => true
   | .cons _ vs b r => vs.all (frag coll) && bfrag coll b && casesFrag coll r
+/-- the params of a call: values of the expression fragment, content blocks of the command fragment -/
+def paramsFrag (coll : Bytes → Bool) : ParamList → Bool
+  | .nil => true
+  | .value _ _ e r => frag coll e && paramsFrag coll r
+  | .content _ _ b r => bfrag coll b && paramsFrag coll r
 end
 
 /-- a scalar, a list of scalars or a map of scalars -/
@@ -727,56 +725,6 @@ def AgreeP (coll : Bytes → Bool) (cd : Scope) (st : St) (B : Spec.Eval.Binds) 
   | .error => r.cls = .err
   | .unspec => True
 
-omit hob hcall hreg hcs in
-/-- the value params of a call: evaluated in the caller's environment, bound in the callee's param frame -/
-theorem params_agree : (ps : ParamList) → paramsFrag coll ps = true →
-    ∀ (cd ctx : Scope) (st : St) (env : Spec.Eval.Env) (B0 : Spec.Eval.Binds),
-    Rel coll g entry ctx st env → Own cd st → FrameRel coll st.heap cd B0 → (∀ f ∈ ctx, f.ref ≠ top cd) → ScopeOk ctx st →
-    AgreeP coll cd st B0 (execParams g esc call ps cd ctx st) (Spec.Eval.renderParams reg hasBundle esc entry scall ps env)
-  | .nil, _, cd, ctx, st, env, B0, _, _, hfr, _, _ => by
-    rw [Spec.Eval.renderParams, execParams]
-    exact ⟨rfl, by simpa using hfr, rfl⟩
-  | .content _ _ _ _, hf, _, _, _, _, _, _, _, _, _, _ => by simp [paramsFrag] at hf
-  | .value _ key e rest, hf, cd, ctx, st, env, B0, hr, owncd, hfr, hne, hok => by
-    simp only [paramsFrag, Bool.and_eq_true] at hf
-    obtain ⟨h1, h2⟩ := evalIn_sim hr e hf.1
-    rw [Spec.Eval.renderParams, execParams]
-    cases hv : Spec.Eval.eval env e with
-    | unspec => simp [Spec.Eval.Out.bind, AgreeP]
-    | error => simp [Spec.Eval.Out.bind, AgreeP, h2 hv]
-    | val v =>
-      obtain ⟨mv, st1, he, habs, hsc, hheap, hout⟩ := h1 v hv
-      have e1 : Ext (fun _ => False) st st1 := evalIn_ext _ he
-      have own1 := owncd.ext e1
-      simp only [Spec.Eval.Out.bind, he]
-      cases hs : Eval.set cd st1 key mv with
-      | none => exact absurd hs (set_ne_none own1)
-      | some st2 =>
-        simp only
-        have e2 := set_ext own1 hs
-        have hok1 : ScopeOk ctx st1 := fun f hf' => by rw [hheap]; exact hok f hf'
-        have hr2 : Rel coll g entry ctx st2 env :=
-          (hr.of_heap hheap).of_ext e2 hok1 (fun f hf' h => hne f hf' h)
-        have hfr2 : FrameRel coll st2.heap cd ((key, v) :: B0) := by
-          intro k
-          rw [lookup_set own1 hs k, find_cons]
-          have := hfr k
-          rw [← hheap] at this
-          split
-          · exact ⟨by rw [habs]; rfl, OkAt.of_scalar hsc⟩
-          · exact this
-        have hok2 : ScopeOk ctx st2 := fun f hf' => Nat.lt_of_lt_of_le (hok1 f hf') e2.len
-        have ih := params_agree rest hf.2 cd ctx st2 env ((key, v) :: B0) hr2 (own1.ext e2) hfr2 hne hok2
-        cases hrr : Spec.Eval.renderParams reg hasBundle esc entry scall rest env with
-        | unspec => simp [AgreeP]
-        | error => rw [hrr] at ih; simpa [AgreeP] using ih
-        | val R =>
-          rw [hrr] at ih
-          simp only [AgreeP] at ih ⊢
-          refine ⟨ih.1, ?_, by rw [ih.2.2, Refine.set_out hs, hout]⟩
-          have : (R ++ [(key, v)]) ++ B0 = R ++ (key, v) :: B0 := by simp
-          rw [this]; exact ih.2.1
-
 /-- the evaluation of `E` agrees with the specification's: the same value (up to identities) — a scalar, a
     list of scalars or a map of scalars —, no change of the heap or of the output -/
 def ValSim (coll : Bytes → Bool) (g : GEnv) (E : Expr) (ctx : Scope) (st : St) (env : Spec.Eval.Env) : Prop :=
@@ -1293,7 +1241,9 @@ theorem cmd_agree : (c : Cmd) → cfrag coll c = true → ∀ (ctx : Scope) (st 
             (hr.of_heap hheap).of_ext (Ext.append st1 _) hok1 (fun _ _ h => h)
           have hok0 : ScopeOk ctx { st1 with heap := st1.heap ++ [⟨kvs, true⟩, ⟨[], false⟩] } := fun f hf' => by
             have := hok1 f hf'; simp; omega
-          have hp := params_agree g esc call reg hasBundle entry scall ps hf.2 _ ctx _ env B hr0 own0 hfr0 hne hok0
+          have hp := params_agree ps hf.2 _ ctx _ env B hr0 ((show Own ctx st1 from by
+              obtain ⟨f, r, c, h1, h2, h3⟩ := hown
+              exact ⟨f, r, c, h1, by rw [hheap]; exact h2, h3⟩).ext (Ext.append st1 _)) own0 (by intro f hf'; simp at hf'; rcases hf' with rfl | rfl <;> simp) hfr0 hne hok0
           exact Agree.of_out g entry (st0 := { st1 with heap := st1.heap ++ [⟨kvs, true⟩, ⟨[], false⟩] }) hout
             (call_core g esc call hcall reg hasBundle entry scall hcs callee (List.mem_of_find?_eq_some hl) ps ctx _ env
               (st1.heap.length + 1) [⟨st1.heap.length, false⟩] B own0 (by simp) (by simp) hp hr.base.globals hrel)
@@ -1332,7 +1282,7 @@ theorem cmd_agree : (c : Cmd) → cfrag coll c = true → ∀ (ctx : Scope) (st 
         hr.of_ext (Ext.append st [⟨[], false⟩]) hok (fun _ _ h => h)
       have hok0 : ScopeOk ctx { st with heap := st.heap ++ [⟨[], false⟩] } := fun f hf' => by
         have := hok f hf'; simp; omega
-      have hp := params_agree g esc call reg hasBundle entry scall ps hf [⟨st.heap.length, false⟩] ctx _ env [] hr0 own0 hfr0 hne hok0
+      have hp := params_agree ps hf [⟨st.heap.length, false⟩] ctx _ env [] hr0 (hown.ext (Ext.append st _)) own0 (by intro f hf'; simp at hf'; subst hf'; simp) hfr0 hne hok0
       exact Agree.of_out g entry (st0 := { st with heap := st.heap ++ [⟨[], false⟩] }) rfl
         (call_core g esc call hcall reg hasBundle entry scall hcs callee (List.mem_of_find?_eq_some hl) ps ctx _ env
           st.heap.length [] [] own0 (by simp) (by simp) hp hr.base.globals hrel)
@@ -1370,7 +1320,11 @@ theorem cmd_agree : (c : Cmd) → cfrag coll c = true → ∀ (ctx : Scope) (st 
         hr.of_ext (Ext.append st [⟨[], false⟩]) hok (fun _ _ h => h)
       have hok0 : ScopeOk ctx { st with heap := st.heap ++ [⟨[], false⟩] } := fun f hf' => by
         have := hok f hf'; simp; omega
-      have hp := params_agree g esc call reg hasBundle entry scall ps hf (⟨st.heap.length, false⟩ :: sc) ctx _ env entry hr0 own0 hfr0 hne hok0
+      have hp := params_agree ps hf (⟨st.heap.length, false⟩ :: sc) ctx _ env entry hr0 (hown.ext (Ext.append st _)) own0 (fun f hf' => by
+          simp only [List.mem_cons] at hf'
+          rcases hf' with rfl | hf'
+          · simp
+          · have := hlt0 f hf'; simp; omega) hfr0 hne hok0
       exact Agree.of_out g entry (st0 := { st with heap := st.heap ++ [⟨[], false⟩] }) rfl
         (call_core g esc call hcall reg hasBundle entry scall hcs callee (List.mem_of_find?_eq_some hl) ps ctx _ env
           st.heap.length sc entry own0 (by simp) (fun x hx => by have := hlt0 x hx; simp; omega) hp hr.base.globals hrel)
@@ -1493,6 +1447,108 @@ theorem conds_agree : (cs : CondList) → condsFrag coll cs = true → ∀ (ctx 
         exact conv (conds_agree rest hf.2 ctx st1 env hr1 hown1 hok1)
       · simp only [if_true]
         exact conv (body_agree body hf.1.2 ctx st1 env hr1 hok1)
+/-- the params of a call: evaluated / rendered in the caller's environment, bound in the callee's param frame -/
+theorem params_agree : (ps : ParamList) → paramsFrag coll ps = true →
+    ∀ (cd ctx : Scope) (st : St) (env : Spec.Eval.Env) (B0 : Spec.Eval.Binds),
+    Rel coll g entry ctx st env → Own ctx st → Own cd st → ScopeOk cd st → FrameRel coll st.heap cd B0 → (∀ f ∈ ctx, f.ref ≠ top cd) → ScopeOk ctx st →
+    AgreeP coll cd st B0 (execParams g esc call ps cd ctx st) (Spec.Eval.renderParams reg hasBundle esc entry scall ps env)
+  | .nil, _, cd, ctx, st, env, B0, _, _, _, _, hfr, _, _ => by
+    rw [Spec.Eval.renderParams, execParams]
+    exact ⟨rfl, by simpa using hfr, rfl⟩
+  | .value _ key e rest, hf, cd, ctx, st, env, B0, hr, hown, owncd, hcd, hfr, hne, hok => by
+    simp only [paramsFrag, Bool.and_eq_true] at hf
+    obtain ⟨h1, h2⟩ := evalIn_sim hr e hf.1
+    rw [Spec.Eval.renderParams, execParams]
+    cases hv : Spec.Eval.eval env e with
+    | unspec => simp [Spec.Eval.Out.bind, AgreeP]
+    | error => simp [Spec.Eval.Out.bind, AgreeP, h2 hv]
+    | val v =>
+      obtain ⟨mv, st1, he, habs, hsc, hheap, hout⟩ := h1 v hv
+      have e1 : Ext (fun _ => False) st st1 := evalIn_ext _ he
+      have own1 := owncd.ext e1
+      simp only [Spec.Eval.Out.bind, he]
+      cases hs : Eval.set cd st1 key mv with
+      | none => exact absurd hs (set_ne_none own1)
+      | some st2 =>
+        simp only
+        have e2 := set_ext own1 hs
+        have hok1 : ScopeOk ctx st1 := fun f hf' => by rw [hheap]; exact hok f hf'
+        have hr2 : Rel coll g entry ctx st2 env :=
+          (hr.of_heap hheap).of_ext e2 hok1 (fun f hf' h => hne f hf' h)
+        have hfr2 : FrameRel coll st2.heap cd ((key, v) :: B0) := by
+          intro k
+          rw [lookup_set own1 hs k, find_cons]
+          have := hfr k
+          rw [← hheap] at this
+          split
+          · exact ⟨by rw [habs]; rfl, OkAt.of_scalar hsc⟩
+          · exact this
+        have hok2 : ScopeOk ctx st2 := fun f hf' => Nat.lt_of_lt_of_le (hok1 f hf') e2.len
+        have hcd2 : ScopeOk cd st2 := fun f hf' => Nat.lt_of_lt_of_le (by rw [hheap]; exact hcd f hf') e2.len
+        have ih := params_agree rest hf.2 cd ctx st2 env ((key, v) :: B0) hr2 ((hown.ext e1).ext e2) (own1.ext e2) hcd2 hfr2 hne hok2
+        cases hrr : Spec.Eval.renderParams reg hasBundle esc entry scall rest env with
+        | unspec => simp [AgreeP]
+        | error => rw [hrr] at ih; simpa [AgreeP] using ih
+        | val R =>
+          rw [hrr] at ih
+          simp only [AgreeP] at ih ⊢
+          refine ⟨ih.1, ?_, by rw [ih.2.2, Refine.set_out hs, hout]⟩
+          have : (R ++ [(key, v)]) ++ B0 = R ++ (key, v) :: B0 := by simp
+          rw [this]; exact ih.2.1
+  | .content _ key body rest, hf, cd, ctx, st, env, B0, hr, hown, owncd, hcd, hfr, hne, hok => by
+    simp only [paramsFrag, Bool.and_eq_true] at hf
+    rw [Spec.Eval.renderParams, execParams]
+    have hb := body_agree body hf.1 ctx { st with out := [] } env (hr.of_heap rfl) hok
+    have hgood := (renderBlockOf_good' (execBody_good g esc call hcall body) ctx st).1
+    unfold renderBlockOf at hgood ⊢
+    cases hv : Spec.Eval.renderBlock reg hasBundle esc entry scall body env with
+    | unspec => simp [Spec.Eval.Out.bind, AgreeP]
+    | error => rw [hv] at hb; simp only [AgreeB] at hb; simp [Spec.Eval.Out.bind, AgreeP, hb]
+    | val out =>
+      rw [hv] at hb
+      simp only [AgreeB] at hb
+      obtain ⟨hcls, hbytes, hrel⟩ := hb
+      simp only [Spec.Eval.Out.bind, hcls]
+      have hctx := hgood.ctx_eq hcls
+      simp only at hctx
+      rw [hctx]
+      have hbuf : bufBytes (walkBlockOf (execBody g esc call body) ctx { st with out := [] }).st.out = out := by
+        simpa [bufBytes] using hbytes
+      rw [hbuf]
+      have e1 : Ext (fun _ => False) st { (walkBlockOf (execBody g esc call body) ctx { st with out := [] }).st with out := st.out } :=
+        hgood.ext
+      generalize hS1 : ({ (walkBlockOf (execBody g esc call body) ctx { st with out := [] }).st with out := st.out } : St) = st1 at *
+      have hout1 : st1.out = st.out := by rw [← hS1]
+      have hr1 : Rel coll g entry ctx st1 env := by rw [← hS1]; exact hrel.of_heap rfl
+      have own1 : Own cd st1 := owncd.ext e1
+      have hown1 : Own ctx st1 := hown.ext e1
+      cases hs : Eval.set cd st1 key (.str out) with
+      | none => exact absurd hs (set_ne_none own1)
+      | some st2 =>
+        simp only
+        have e2 := set_ext own1 hs
+        have hok1 : ScopeOk ctx st1 := fun f hf' => Nat.lt_of_lt_of_le (hok f hf') e1.len
+        have hcd1 : ScopeOk cd st1 := fun f hf' => Nat.lt_of_lt_of_le (hcd f hf') e1.len
+        have hr2 : Rel coll g entry ctx st2 env := hr1.of_ext e2 hok1 (fun f hf' h => hne f hf' h)
+        have hfr1 : FrameRel coll st1.heap cd B0 := hfr.of_lookup (lookup_ext_W e1 cd hcd (fun _ _ h => h))
+        have hfr2 : FrameRel coll st2.heap cd ((key, .str out) :: B0) := by
+          intro k
+          rw [lookup_set own1 hs k, find_cons]
+          split
+          · exact ⟨rfl, OkAt.of_scalar rfl⟩
+          · exact hfr1 k
+        have hok2 : ScopeOk ctx st2 := fun f hf' => Nat.lt_of_lt_of_le (hok1 f hf') e2.len
+        have hcd2 : ScopeOk cd st2 := fun f hf' => Nat.lt_of_lt_of_le (hcd1 f hf') e2.len
+        have ih := params_agree rest hf.2 cd ctx st2 env ((key, .str out) :: B0) hr2 (hown1.ext e2) (own1.ext e2) hcd2 hfr2 hne hok2
+        cases hrr : Spec.Eval.renderParams reg hasBundle esc entry scall rest env with
+        | unspec => simp [AgreeP]
+        | error => rw [hrr] at ih; simpa [AgreeP] using ih
+        | val R =>
+          rw [hrr] at ih
+          simp only [AgreeP] at ih ⊢
+          refine ⟨ih.1, ?_, by rw [ih.2.2, Refine.set_out hs, hout1]⟩
+          have : (R ++ [(key, .str out)]) ++ B0 = R ++ (key, .str out) :: B0 := by simp
+          rw [this]; exact ih.2.1
 end
 
 
@@ -1626,7 +1682,7 @@ theorem execute_some (g : GEnv) (name : Bytes) (data : Frame) (fuel : Nat) (t : 
 /-- `exec_refines_lexical` on the fragment, closed: for a registry whose templates are all in the fragment
     (raw text, print without directives, css, debugger, log, if/elseif/else, switch, foreach over a list
     literal, a range or a variable, let value / content, calls without a data attribute, with data="all",
-    with data="$m" or a map literal, with value params), data of scalars and — under the names `coll` —
+    with data="$m" or a map literal, with value and content params), data of scalars and — under the names `coll` —
     lists / maps of scalars, scalar globals, no obligatory directive: whenever `Spec.render` yields text, `execute` ends ok having written
     exactly that text; whenever it yields an error, `execute` fails. -/
 theorem render_refines_lexical_partial (coll : Bytes → Bool) (g : GEnv) (hob : g.oblig = []) (hfr : regFrag coll g.reg)
@@ -1885,6 +1941,27 @@ example : bufBytes (execCmd g0 true (fun _ ctx st => ⟨.fuelOut, ctx, st⟩)
       (.forc 1 [121] (.dataRef 1 [108] .nil) (.mk 2 (.cons (.print 2 (.dataRef 2 [121] .nil) []) .nil)) none) envL = .val ([97, 98], envL) := by rfl
   rw [hs] at h
   simpa [bufBytes, stL] using h.2.1
+
+/-! ### a content param: `{call .c}{param p}{let $x: 'L' /}({$x}){/param}{/call}` with .c = `[{$p}]`: "[(L)]" -/
+
+def tCallerContent : Registry.Tmpl :=
+  { name := [116], params := [],
+    body := .mk 1 (.cons (.call 3 [99] false none (.content 4 [112]
+        (.mk 5 (.cons (.letValue 5 [120] (.str 5 [] [76])) (.cons (.rawText 6 [40])
+          (.cons (.print 6 (.dataRef 6 [120] .nil) []) (.cons (.rawText 7 [41]) .nil))))) .nil)) .nil),
+    autoescape := .unspecified, nsName := [110], nsAutoescape := .unspecified, pos := 0, file := [102], text := [] }
+
+def gContent : GEnv := { reg := [tCallerContent, tCallee], globals := [], ij := none, msgs := none, tbl := [], oblig := [] }
+
+example : (execute gContent [116] [] 4).cls = .ok ∧ (execute gContent [116] [] 4).chunks.flatten = [91, 40, 76, 41, 93] := by
+  have hfr : regFrag noColl gContent.reg := by
+    intro t ht
+    simp only [gContent, List.mem_cons, List.mem_nil_iff, or_false] at ht
+    rcases ht with rfl | rfl <;> decide
+  have h := render_refines_lexical_partial noColl gContent rfl hfr (by simp [gContent]) [116] [] (by simp) 4 none false
+  have hs : Spec.Eval.render gContent.reg (absK gContent.globals) none false [116] (absK []) 4 = .val [91, 40, 76, 41, 93] := by rfl
+  rw [hs] at h
+  exact h
 
 /-- `{for $i in range(1, 4)}{$i}{/for}{$x}`: "123out" -/
 def body2 : Block :=
